@@ -215,3 +215,60 @@ class IsormCompute(FormBase):
     def beta_clause(self, cx, beta, nd):
         c = CHI2INV(1 - T.zr(self.alpha), z3.RealVal(nd), z3.RealVal(0), z3.RealVal(1))
         cx.oblige("post.beta", T.land(T.ge(beta, 0), T.eq(T.mul(beta, beta), c)), "post", "beta = sqrt(chi2_n^-1(1 - alpha)), n = number of variables")
+
+
+@contract(CT + "IFORMContour._compute", ["C01"], [dict()], name="iform.compute.any_n_dim")
+class IformSym(Contract):
+    """the Rosenblatt clause for a SYMBOLIC number of variables and an arbitrary admissible conditional_on
+    (loop invariant through an arbitrary fixed cell (k0, j0): once column j0 is written it satisfies the clause and
+    is never written again; columns below i are initialised)"""
+
+    def setup(self, itp, case):
+        itp.summaries["virocon._nsphere.NSphere"] = nsphere_summary
+        me = self
+
+        def inv(itp_, env, kc):
+            cx = itp_.cx
+            coords = env.lookup("coordinates")
+            p = env.lookup("p")
+            me.coords, me.p = coords, p
+            cg, pg, ug = coords.getter(), p.getter(), coords.uninit_getter()
+            k0, j0 = cx.sym("k0", "int"), cx.sym("j0", "int")
+            upto = T.add(1, kc)
+            cond = me.cond
+            clause = z3.If(cond.is_none(j0), CDF(j0, cg((k0, j0)), Fraction(0)) == T.zr(pg((k0, j0))),
+                           CDF(j0, cg((k0, j0)), cg((k0, cond.idx(j0)))) == T.zr(pg((k0, j0))))
+            out = [("cell_done", T.implies(T.land(T.ge(j0, 0), T.lt(j0, upto), T.lt(j0, me.nd)), clause))]
+            if ug is not None:
+                out.append(("initialised", cx.forall(["int", "int"], lambda r, j: T.implies(
+                    T.land(T.ge(r, 0), T.lt(r, coords.shape[0]), T.ge(j, 0), T.lt(j, upto), T.lt(j, me.nd)), T.lnot(ug((r, j)))))))
+            return out
+        itp.loop_specs[(CT + "IFORMContour._compute", 0)] = LoopSpec(inv)
+
+    def inputs(self, itp, case):
+        cx = itp.cx
+        self.model, self.nd, self.cond, self.dists = make_symbolic_model(cx, min_dim=2)
+        self.obj, self.alpha, self.npts = contour_self(cx, "IFORMContour", self.model)
+        k0 = cx.sym("k0", "int")
+        cx.assume(T.land(T.ge(k0, 0), T.lt(k0, self.npts)), "arbitrary point k0")
+        return [self.obj], {}
+
+    def post(self, itp, case, inp, out):
+        cx = itp.cx
+        if out.outcome != "return":
+            cx.oblige("post.returns", False, "post", f"raised {out.exc}: {out.msg}")
+            return
+        f = self.obj.fields
+        coords, sphere, beta = f.get("coordinates"), f.get("sphere_points"), f.get("beta")
+        if not (isinstance(coords, SArr) and isinstance(sphere, SArr) and is_scalar(beta)):
+            cx.oblige("post.attributes", False, "post")
+            return
+        cx.oblige("post.beta", T.eq(term_of(beta), PHIINV(1 - T.zr(self.alpha), z3.RealVal(0), z3.RealVal(1))), "post", "beta = Phi^-1(1 - alpha)")
+        cx.oblige("post.shape", T.land(T.eq(coords.shape[0], self.npts), T.eq(coords.shape[1], self.nd), T.eq(sphere.shape[0], self.npts), T.eq(sphere.shape[1], self.nd)), "post")
+        k0, j0 = cx.sym("k0", "int"), cx.sym("j0", "int")
+        cx.assume(T.land(T.ge(j0, 0), T.lt(j0, self.nd)), "arbitrary variable j0")
+        cg, sg = coords.getter(), sphere.getter()
+        cond = self.cond
+        goal = z3.If(cond.is_none(j0), CDF(j0, cg((k0, j0)), Fraction(0)) == Phi(sg((k0, j0))),
+                     CDF(j0, cg((k0, j0)), cg((k0, cond.idx(j0)))) == Phi(sg((k0, j0))))
+        cx.oblige("post.rosenblatt", goal, "post", "for every point and every variable: model cdf (same row, declared column) of the point = Phi(sphere point)")
